@@ -40,6 +40,8 @@ pub struct MLayer {
 	pub values: Vec<(Enc, MVal)>,
 	pub extent: Option<u32>,
 	pub version: u32,
+	/// raw protobuf fields put into the layer message (extension fields: MVT 2.1 reserves the numbers >= 16)
+	pub extra: Vec<u8>,
 }
 
 fn varint(out: &mut Vec<u8>, mut v: u64) {
@@ -140,6 +142,20 @@ pub fn encode_layer(l: &MLayer) -> Vec<u8> {
 		key(&mut o, 5, 0);
 		varint(&mut o, e as u64);
 	}
+	o.extend_from_slice(&l.extra);
+	o
+}
+
+/// extension fields of all four wire types a decoder has to skip: 16 varint, 100 bytes, 17 fixed32, 18 fixed64
+pub fn extension_fields() -> Vec<u8> {
+	let mut o = vec![];
+	key(&mut o, 16, 0);
+	varint(&mut o, 300);
+	bytes_field(&mut o, 100, b"vendor data");
+	key(&mut o, 17, 5);
+	o.extend_from_slice(&[1, 2, 3, 4]);
+	key(&mut o, 18, 1);
+	o.extend_from_slice(&[1, 2, 3, 4, 5, 6, 7, 8]);
 	o
 }
 
@@ -334,7 +350,7 @@ pub fn s(v: &str) -> (Enc, MVal) {
 	(Enc::Str, MVal::Str(v.to_string()))
 }
 pub fn layer(name: &str, keys: &[&str], values: Vec<(Enc, MVal)>, features: Vec<MFeature>) -> MLayer {
-	MLayer { name: name.to_string(), features, keys: keys.iter().map(|k| k.to_string()).collect(), values, extent: Some(4096), version: 2 }
+	MLayer { name: name.to_string(), features, keys: keys.iter().map(|k| k.to_string()).collect(), values, extent: Some(4096), version: 2, extra: vec![] }
 }
 pub fn feat(id: Option<u64>, tags: &[u32], gtype: u64, geom: Vec<u32>) -> MFeature {
 	MFeature { id, tags: tags.to_vec(), gtype, geom }
@@ -410,4 +426,51 @@ pub fn encode_tile_alternative_packing(unpacked: bool) -> Vec<u8> {
 	let mut t = vec![];
 	bytes_field(&mut t, 3, &l);
 	t
+}
+
+/// Absolute coordinates of a geometry command stream (packed varints as stored in the feature): one entry per
+/// MoveTo / LineTo vertex `(command, x, y)` and `(7, 0, 0)` per ClosePath. `None` if the bytes are not a
+/// well-formed command stream (geometries of unknown type need not be one).
+pub fn geom_abs(geom: &[u8]) -> Option<Vec<(u8, i64, i64)>> {
+	let mut vals: Vec<u32> = vec![];
+	let mut p = 0usize;
+	while p < geom.len() {
+		let (mut v, mut shift) = (0u64, 0u32);
+		loop {
+			let b = *geom.get(p)?;
+			p += 1;
+			v |= ((b & 0x7f) as u64) << shift;
+			if b & 0x80 == 0 {
+				break;
+			}
+			shift += 7;
+			if shift > 63 {
+				return None;
+			}
+		}
+		vals.push(u32::try_from(v).ok()?);
+	}
+	let unzig = |v: u32| ((v >> 1) as i64) ^ -((v & 1) as i64);
+	let (mut x, mut y) = (0i64, 0i64);
+	let mut out = vec![];
+	let mut i = 0usize;
+	while i < vals.len() {
+		let (cmd, count) = ((vals[i] & 7) as u8, (vals[i] >> 3) as usize);
+		i += 1;
+		match cmd {
+			1 | 2 => {
+				for _ in 0..count {
+					let dx = unzig(*vals.get(i)?);
+					let dy = unzig(*vals.get(i + 1)?);
+					i += 2;
+					x += dx;
+					y += dy;
+					out.push((cmd, x, y));
+				}
+			}
+			7 => out.extend(std::iter::repeat((7u8, 0i64, 0i64)).take(count)),
+			_ => return None,
+		}
+	}
+	Some(out)
 }
